@@ -10,6 +10,8 @@ out-of-bounds access or use of an invalid handle (DESIGN.md section 3, C08):
   SHIFT-WIDEN an int-typed shift (`1 << i`) is never widened into a digit-typed variable
   CEIL-ZERO   (c08_wrap.py) RLC_CEIL(A, B) = (A - 1) / B + 1 only where the unsigned A is positive
   WRAP        (c08_wrap.py) an unsigned subtraction that bounds a loop or decides a comparison cannot wrap
+  GUARD-RANGE (c08_range.py) no error guard compares a variable with a constant its type can never reach (except `unsigned < 0`)
+  GROW-FIRST  (c08_range.py) the digit count of an integer is not raised before the bn_grow that has to cover it
   WRITE-GUARD (c08_wguard.py) no write through a caller's (buffer, capacity) pair before the capacity has been examined
   CAP         a digit store into a multiple-precision integer is preceded by a capacity request that covers the index
   COPY-IN     copies of an operand's digits into local arrays / stack allocations are bounded
@@ -890,6 +892,9 @@ def analyse(ctx, prog, chk, dyn=False):
         out["wrap"] = c08_wrap.analyse(ctx, prog, chk)
         out["ceil"] = c08_wrap.rule_ceil_zero(ctx, prog, chk)
         out["wguard"] = c08_wguard.analyse(ctx, prog, chk)
+        from . import c08_range
+        out["grange"] = c08_range.rule_guard_range(ctx, prog, chk)
+        out["gfirst"] = c08_range.rule_grow_first(ctx, prog, chk)
     return out
 
 
@@ -912,6 +917,8 @@ def run(ctx, chk):
     chk.floor("CEIL-ZERO", "RLC_CEIL of unsigned quantities (BASE)", c["ceil"], 15)
     chk.floor("WRAP", "unsigned subtractions in conditions (BASE)", c["wrap"], 20)
     chk.floor("WRITE-GUARD", "writes through caller buffers with a capacity (BASE)", c["wguard"], 120)
+    chk.floor("GUARD-RANGE", "comparisons of integer variables with constants (BASE)", c["grange"], 3000)
+    chk.floor("GROW-FIRST", "digit-count stores in functions that request capacity (BASE)", c["gfirst"], 10)
     if chk.tier == "thorough":
         for cfg in ("P255", "P381"):
             analyse(ctx, ctx.program(cfg), chk)
